@@ -10,7 +10,7 @@ stage P: independent SI assembly on the .ans the real fsolver wrote: magnetostat
          (complex A, consistent-mass eddy term, complex BCs, circuit records): free-node residuals, prescribed values,
          per-label circuit records = applied density, total current per circuit region
 """
-import os, shutil, subprocess, sys
+import copy, os, shutil, subprocess, sys
 sys.path.insert(0, os.path.join(os.path.dirname(os.path.dirname(os.path.abspath(__file__))), "harness", "py"))
 import numpy as np
 from tools import vlib
@@ -120,8 +120,8 @@ def main(argv):
                                                           model=[tok2d(x) for x in model[blk]], files=run.files()))
                                 break
                 run.restore_mesh()
-            # ---- stage B: the whole system of the first pass of Static2D (planar problems) vs Model/MSolver.lean, bit for bit
-            if ax and not p.harmonic and p.ptype == "planar":
+            # ---- stage B: the whole system of the first pass of Static2D / StaticAxisymmetric vs Model/MSolver.lean, bit for bit
+            if ax and not p.harmonic:
                 dump = os.path.join(run.dir, "sys_harness.txt")
                 try:
                     r = subprocess.run([ax, run.base], stdout=subprocess.PIPE, stderr=subprocess.PIPE, text=True, timeout=600,
@@ -136,13 +136,42 @@ def main(argv):
                         m = subprocess.run([mx, "assemble-m"], input="\n".join(proto) + "\n", stdout=subprocess.PIPE, text=True, timeout=600)
                         d = C03.compare_systems(open(dump).read().splitlines(), m.stdout.splitlines())
                         stats["systems_compared"] = stats.get("systems_compared", 0) + 1
+                        stats["systems_compared_" + ("planar" if p.ptype == "planar" else "axi")] = stats.get("systems_compared_" + ("planar" if p.ptype == "planar" else "axi"), 0) + 1
                         stats["entries_compared"] = stats.get("entries_compared", 0) + sum(1 for l in m.stdout.splitlines() if l.startswith("E "))
                         if d:
-                            ck.obligation_broken("correspondence assemble-m: FSolver::Static2D (first pass) vs Model/MSolver.lean (%s)" % d["what"],
+                            ck.obligation_broken("correspondence assemble-m: FSolver::%s (first pass) vs Model/MSolver.lean (%s)" % ("Static2D" if p.ptype == "planar" else "StaticAxisymmetric", d["what"]),
                                                  dict(first_difference=d, files=run.files()))
                 except subprocess.TimeoutExpired:
                     ck.violation("assembly-timeout", "the real FSolver (in-process) did not finish within 600 s", dict(files=run.files()))
                 run.restore_mesh()
+            # ---- stage B, axisymmetric twin: the same drawing revolved; only the assembly of StaticAxisymmetric is compared (the SI
+            # oracle below is planar)
+            if ax and not p.harmonic and t % 2 == 0:
+                pa = copy.deepcopy(p)
+                pa.ptype = "axi"
+                runa = Run(build, work, "p%d_axi" % t, pa)
+                if runa.mesh() == 0:
+                    dump = os.path.join(runa.dir, "sys_harness.txt")
+                    try:
+                        r = subprocess.run([ax, runa.base], stdout=subprocess.PIPE, stderr=subprocess.PIPE, text=True, timeout=600,
+                                           env=dict(os.environ, XFEMM_VERIF_DUMPSYS=dump))
+                        proto = [l for l in r.stdout.splitlines() if l.split() and l.split()[0] in APROTO]
+                        if "unsupported" in r.stdout:
+                            stats["assembly_unsupported"] = stats.get("assembly_unsupported", 0) + 1
+                        elif r.returncode != 0 or not os.path.exists(dump) or not proto:
+                            ck.violation("assembly-crash:axi", "the real FSolver (in-process, assembly harness) failed on an axisymmetric problem (rc=%d): %s"
+                                         % (r.returncode, (r.stdout[-200:] + r.stderr[-300:])), dict(files=runa.files()))
+                        else:
+                            m = subprocess.run([mx, "assemble-m"], input="\n".join(proto) + "\n", stdout=subprocess.PIPE, text=True, timeout=600)
+                            d = C03.compare_systems(open(dump).read().splitlines(), m.stdout.splitlines())
+                            stats["systems_compared"] = stats.get("systems_compared", 0) + 1
+                            stats["systems_compared_axi"] = stats.get("systems_compared_axi", 0) + 1
+                            stats["entries_compared"] = stats.get("entries_compared", 0) + sum(1 for l in m.stdout.splitlines() if l.startswith("E "))
+                            if d:
+                                ck.obligation_broken("correspondence assemble-m: FSolver::StaticAxisymmetric (first pass) vs Model/MSolver.lean (%s)" % d["what"],
+                                                     dict(first_difference=d, files=runa.files()))
+                    except subprocess.TimeoutExpired:
+                        ck.violation("assembly-timeout:axi", "the real FSolver (in-process) did not finish within 600 s", dict(files=runa.files()))
             slog = os.path.join(run.dir, "solve.log")
             rc = run.solve(env=dict(os.environ, XFEMM_VERIF_SOLVELOG=slog))
             if rc != 0 or not os.path.exists(run.solution_path()):
